@@ -6,6 +6,10 @@ import Exetera.Lemmas.Offsets
 import Exetera.Lemmas.IndexedWriter
 import Exetera.Lemmas.IndexedReader
 import Exetera.Lemmas.Variants
+import Exetera.Model.Reader
+import Exetera.Spec.PySlice
+import Exetera.Lemmas.PySlice
+import Exetera.Lemmas.ReaderItems
 import Exetera.Gen.FieldTypeMap
 /-!
   C01 — field storage round-trip: what is written is what is read.
@@ -18,7 +22,7 @@ import Exetera.Gen.FieldTypeMap
 -/
 namespace Exetera.Props.C01
 
-open Exetera Exetera.Storage Exetera.IndexedWriter Exetera.Spec
+open Exetera Exetera.Storage Exetera.IndexedWriter Exetera.Spec Exetera.Reader
 
 /-! ### (a) the indexed-string writer stores exactly the written sequence -/
 
@@ -271,5 +275,155 @@ theorem model_fieldtypeHead_in_source (k : Kind) :
 theorem key_values_dtype_source : Gen.FieldTypeMap.keyValuesDtype = "nformat" := by decide
 example : readDtype .repaired false "int32" false = "int32" := rfl
 example : fieldLen (offsets [[97], [], [98, 99]]) = 3 := rfl
+
+/-! ### (f) EVERY item: negative indices, `None` / negative / out-of-range bounds, steps of either sign
+
+  The SPEC is Python's own sequence indexing (`Spec/PySlice.lean`: `pySliceG xs start stop step` = `xs[start:stop:step]`,
+  `pyIndex xs i` = `xs[i]`, built on `sliceIndices` = `slice.indices` and `pyRange` = `range`; compared with Python itself on
+  an exhaustive small scope by the harness). The theorems are about the readers WITH the patches NC01b / NC01c
+  (`Variant.repaired`); the readers as found are refuted on their witnesses in `Witness/C01.lean` and keep the `_partial`
+  theorems at the end of this section. -/
+
+/-- Spec sanity (no totalisation at work): every position `range(*slice(start, stop, step).indices(n))` visits is a row,
+    `0 ≤ r < n` — so `pySliceG`, which looks rows up with `xs[r]?`, never drops or wraps one … -/
+theorem pyslice_visits_rows {n : Nat} {start stop step : Option Int} {a b st : Int}
+    (h : sliceIndices n start stop step = .ok (a, b, st)) {r : Int} (hr : r ∈ pyRange a b st) : 0 ≤ r ∧ r < n :=
+  pyRange_rows h hr
+
+/-- … and `xs[start:stop:step]` has exactly `len(range(…))` entries. -/
+theorem pyslice_length {α} (xs : List α) (start stop step : Option Int) {a b st : Int}
+    (h : sliceIndices xs.length start stop step = .ok (a, b, st)) :
+    ∃ ys, pySliceG xs start stop step = .ok ys ∧ ys.length = rangeLen a b st :=
+  pySliceG_length xs start stop step h
+
+/-- The general slice restricted to natural bounds without a step is the `pySlice` the theorems of section (c) use. -/
+theorem pyslice_nat {α} (xs : List α) (a b : Nat) :
+    pySliceG xs (some (a : Int)) (some (b : Int)) none = .ok (pySlice xs a b) :=
+  pySliceG_nat xs a b
+
+example : pySliceG [10, 20, 30, 40, 50] (some (-2)) none none = .ok [40, 50] := rfl
+example : pySliceG [10, 20, 30, 40, 50] none (some (-1)) none = .ok [10, 20, 30, 40] := rfl
+example : pySliceG [10, 20, 30, 40, 50] (some 1) (some 4) (some 2) = .ok [20, 40] := rfl
+example : pySliceG [10, 20, 30, 40, 50] none none (some (-1)) = .ok [50, 40, 30, 20, 10] := rfl
+example : pySliceG [10, 20, 30, 40, 50] (some 3) (some (-9)) (some (-2)) = .ok [40, 20] := rfl
+example : pySliceG [10, 20, 30, 40, 50] (some 7) (some 9) none = .ok [] := rfl
+example : pySliceG [10, 20, 30] none none (some 0) = .error (.valueError "slice step cannot be zero") := rfl
+example : pyIndex [10, 20, 30] (-1) = .ok 30 ∧ pyIndex [10, 20, 30] (-3) = .ok 10 := ⟨rfl, rfl⟩
+example : pyIndex [10, 20, 30] (-4) = .error (.oob "list index out of range") := rfl
+example : sliceIndices 5 (some (-2)) none (some (-1)) = .ok (3, -1, -1) := rfl
+
+/-- `data[start:stop:step]` on a well-formed indexed string field, the writeable and the read-only reader, for EVERY
+    combination of `None`, negative, out-of-range start / stop and any step: exactly Python's `xs[start:stop:step]`
+    (ValueError for step 0 included), no place left `None`, no offset read out of bounds. -/
+theorem slice_read_any (writeable : Bool) (xs : List Bytes) (start stop step : Option Int) :
+    getIndexed .repaired writeable (offsets xs) xs.flatten (.slice start stop step)
+      = (match pySliceG xs start stop step with
+         | .ok ys => .ok (.rows (ys.map some))
+         | .error e => .error e) := by
+  simp only [getIndexed, getSliceRepaired_wellformed]
+  cases pySliceG xs start stop step <;> rfl
+
+/-- `data[i]` for EVERY Python int: row `i` for `0 ≤ i < n`, row `n + i` for `-n ≤ i < 0`; outside `[-n, n)` the field
+    raises (ValueError, where a list raises IndexError). -/
+theorem item_read_any (writeable : Bool) (xs : List Bytes) (i : Int) :
+    getIndexed .repaired writeable (offsets xs) xs.flatten (.int i)
+      = (match pyIndex xs i with
+         | .ok x => .ok (.entry x)
+         | .error _ => .error (.valueError "Index is out of range")) := by
+  simp only [getIndexed, getIntRepaired_wellformed]
+  cases pyIndex xs i <;> rfl
+
+example : getIndexed .repaired false (offsets [[97], [], [98, 99], [100]]) [97, 98, 99, 100] (.slice (some (-3)) none (some 2))
+    = .ok (.rows [some [], some [100]]) := rfl
+example : getIndexed .repaired true (offsets [[97], [], [98, 99], [100]]) [97, 98, 99, 100] (.slice none none (some (-1)))
+    = .ok (.rows [some [100], some [98, 99], some [], some [97]]) := rfl
+example : getIndexed .repaired false (offsets [[97], [], [98, 99], [100]]) [97, 98, 99, 100] (.int (-2))
+    = .ok (.entry [98, 99]) := rfl
+
+/-- End to end: write the sequence through any partition / chunk size ≥ 1 / backend, then read it with ANY int or slice
+    item through either reader: Python's answer on the written sequence. -/
+theorem write_then_read_any (c : Nat) (hc : 1 ≤ c) (h5 : Bool) (parts : List (List Bytes)) (writeable : Bool) :
+    ∃ s, writeField .repaired c h5 parts = .ok s ∧
+      (∀ start stop step,
+        getIndexed .repaired writeable s.indices.contents s.values.contents (.slice start stop step)
+          = (match pySliceG (written parts) start stop step with
+             | .ok ys => .ok (.rows (ys.map some))
+             | .error e => .error e)) ∧
+      (∀ i, getIndexed .repaired writeable s.indices.contents s.values.contents (.int i)
+          = (match pyIndex (written parts) i with
+             | .ok x => .ok (.entry x)
+             | .error _ => .error (.valueError "Index is out of range"))) := by
+  obtain ⟨s, hs, hv, hi, _, _⟩ := indexed_roundtrip c hc h5 parts
+  refine ⟨s, hs, ?_, ?_⟩
+  · intro start stop step; rw [hi, hv]; exact slice_read_any writeable _ start stop step
+  · intro i; rw [hi, hv]; exact item_read_any writeable _ i
+
+/-- Plain fields (numeric of any dtype, fixed string, categorical, timestamp), either backing: after any list of
+    `write_part` calls on a field fresh from its constructor — an HDF5 field, or a memory field with at least one call —
+    `data[item]` is numpy's = Python's answer on the written sequence for EVERY int / slice item; in particular an
+    HDF5-backed array answers a negative step (h5py itself refuses it: NC01c). -/
+theorem plain_read_any {α} (z : α) (h5 : Bool) (parts : List (List α)) (hw : h5 = true ∨ parts ≠ []) (item : Item) :
+    ∃ a, writeParts .repaired z (Arr.fresh h5) parts = .ok a ∧ plainGet .repaired a item = numpyGet (written parts) item := by
+  obtain ⟨a, ha, hc, hn⟩ := writeParts_written z h5 parts hw
+  exact ⟨a, ha, by rw [plainGet_written a hn item, hc]; rfl⟩
+
+/-- A memory field to which nothing was written answers every slice (step ≠ 0) as the empty sequence does. -/
+theorem plain_unwritten_read {α} (start stop step : Option Int) (hstep : step ≠ some 0) :
+    plainGet .repaired (.mem none : Arr α) (.slice start stop step) = numpyGet ([] : List α) (.slice start stop step) :=
+  plainGet_unwritten start stop step hstep
+
+example : ∃ a, writeParts .repaired (0 : Int) (Arr.fresh true) [[10, 20], [30]] = .ok a ∧
+    plainGet .repaired a (.slice none none (some (-1))) = .ok (.array [30, 20, 10]) := ⟨.h5 [10, 20, 30], rfl, rfl⟩
+example : ∃ a, writeParts .repaired (0 : Int) (Arr.fresh false) [[10, 20], [30]] = .ok a ∧
+    plainGet .repaired a (.int (-3)) = .ok (.scalar 10) := ⟨.mem (some [10, 20, 30]), rfl, rfl⟩
+example : (true = true ∨ ([] : List (List Int)) ≠ []) := Or.inl rfl
+
+/-! #### what holds for the readers as found (without NC01b / NC01c) -/
+
+/-- The indexed readers as found agree with Python on the items whose bounds are both given, non-negative, ordered and
+    in range, with no step or step 1, and on ints `0 ≤ i < n`.
+    (Full statement: `slice_read_any` / `item_read_any`, which need the patch NC01b; `Witness.C01.nc01b_*` refute them for the
+    code as found: negative index, negative bound, any other step, and — read-only reader — `start > stop`.) -/
+theorem indexed_read_asFound_partial (writeable : Bool) (xs : List Bytes) (a b : Nat) (hab : a ≤ b) (hb : b ≤ xs.length)
+    (step : Option Int) (hstep : step = none ∨ step = some 1) (i : Nat) (hi : i < xs.length) :
+    getIndexed .asFound writeable (offsets xs) xs.flatten (.slice (some (a : Int)) (some (b : Int)) step)
+      = (match pySliceG xs (some (a : Int)) (some (b : Int)) step with
+         | .ok ys => .ok (.rows (ys.map some))
+         | .error e => .error e) ∧
+    getIndexed .asFound writeable (offsets xs) xs.flatten (.int (i : Int))
+      = (match pyIndex xs (i : Int) with
+         | .ok x => .ok (.entry x)
+         | .error _ => .error (.valueError "Index is out of range")) := by
+  constructor
+  · have hsame : pySliceG xs (some (a : Int)) (some (b : Int)) step = pySliceG xs (some (a : Int)) (some (b : Int)) none := by
+      rcases hstep with h | h <;> subst h <;> rfl
+    rw [hsame, pySliceG_nat]
+    simp only [getIndexed, getSliceAsFound_nat, getSlice_wellformed writeable xs a b hab hb]
+  · have h1 := pyIndex_in_range xs (i : Int) (by omega) (by omega)
+    rw [h1]
+    simp only [getIndexed, getIntAsFound_nat, getItem_wellformed xs i hi]
+    have e : ¬ ((i : Int) < 0) := by omega
+    simp only [e, if_false, Int.toNat_natCast]
+
+example : (1 : Nat) ≤ 3 ∧ 3 ≤ [[97], [], [98, 99], [100]].length ∧ ((some 1 : Option Int) = none ∨ (some 1 : Option Int) = some 1) := by
+  decide
+
+/-- An HDF5-backed plain array as found answers every item except a slice with a negative step as numpy does.
+    (Full statement: `plain_read_any`, which needs NC01c; `Witness.C01.nc01c_negative_step_refused`.) -/
+theorem h5_read_asFound_partial {α} (xs : List α) (item : Item)
+    (hstep : ∀ start stop st, item = .slice start stop (some st) → 0 ≤ st) :
+    h5Get .asFound xs item = numpyGet xs item := by
+  cases item with
+  | int i => rfl
+  | slice start stop step =>
+    cases step with
+    | none => rfl
+    | some st =>
+      have := hstep start stop st rfl
+      have hn : ¬ (st < 0) := by omega
+      simp only [h5Get, hn, if_false]
+
+example : ∀ start stop st, (Item.slice (some 1) none (some 2)) = .slice start stop (some st) → 0 ≤ st := by
+  intro _ _ st h; injection h with _ _ h; injection h with h; omega
 
 end Exetera.Props.C01
